@@ -62,7 +62,7 @@ H_WellFormed ==
   /\ \A r \in R : S(Obs[r].ents) \subseteq DOMAIN UU
   /\ \A r \in R : \A x \in S(Obs[r].ents) : UU[x].seen
   /\ ev.chain => (l > 1 /\ Rec(l - 1).sid = ev.sid /\ Rec(l - 1).post = ev.pre)
-  /\ ~ev.panic \/ ev.op \in {"JB", "J", "I", "A", "AF"}
+  /\ ~ev.panic \/ ev.op \in {"JB", "J", "I", "A", "AF", "F", "L"}
   /\ ~ev.herr
 
 -----------------------------------------------------------------------------
@@ -150,6 +150,8 @@ C05_OneContentPerHash ==
   \A r, s \in R : \A x \in S(Obs[r].ents) \cap S(Obs[s].ents) : LDigOf(Obs[r], x) = LDigOf(Obs[s], x)
 C05_OthersUntouched ==
   [][IsStep => \A r \in R : r # ev.r => post[r] = pre[r]]_vars
+\* a log can always be rebuilt from what another log hands out (its entries and heads, or its blocks in the store)
+C05_RebuildSucceeds == [][IsStep /\ ev.op \in {"F", "L"} /\ ~ev.div => ~ev.panic]_vars
 \* whatever happens to one log, every other log keeps listing and returning its own entries
 C05_IndexIntact ==
   \A r \in R : LET o == Obs[r] IN
